@@ -460,3 +460,19 @@ func TestC19(t *testing.T) {
 		Stage[c19CanonCase]{Name: "canonical", Gen: c19GenCanon, Run: c19RunCanon, N: pick(4000, 100000)},
 	)
 }
+
+// FuzzC19: coverage-guided search over reference/identity/canonical strings; thorough tier only.
+func FuzzC19(f *testing.F) {
+	for _, s := range c19Hostile {
+		f.Add(s)
+	}
+	for _, s := range []string{"Patient/1", "Patient/1/_history/2", "http://example.org/fhir/Patient/1", "https://a.b/x/Observation/o-1/_history/v.2", "#frag", "urn:uuid:123e4567-e89b-12d3-a456-426614174000", "http://example.org/fhir/ValueSet/x|1.0#f", "http://h//Patient/1", "http://h/Patient/1/"} {
+		f.Add(s)
+	}
+	f.Fuzz(func(t *testing.T, s string) {
+		if len(s) > 200 {
+			return
+		}
+		fuzzCase(t, "C19", "strings", c19StrCase{S: s}, c19RunStr)
+	})
+}
